@@ -102,6 +102,10 @@ func (s *Sched) poke() {
 func (s *Sched) Go(name string, f func()) {
 	s.mu.Lock()
 	s.actors++
+	// Gates park from the first actor on (not only from Run on): otherwise an actor
+	// goroutine that starts running before Run is called would pass its gates
+	// unscheduled, and how far it gets would depend on GOMAXPROCS.
+	s.active = true
 	s.mu.Unlock()
 	go func() {
 		defer func() {
@@ -115,8 +119,10 @@ func (s *Sched) Go(name string, f func()) {
 	}()
 }
 
-// Gate parks the calling goroutine until the scheduler releases it. Outside
-// Run (set-up, tear-down, crash reboots) it is a no-op.
+// Gate parks the calling goroutine until the scheduler releases it. Before the
+// first Go and after Run has returned (set-up, tear-down, crash reboots) it is a
+// no-op. Between the first Go and Run the calling (main) goroutine must not
+// reach a gate itself: nobody would release it.
 func (s *Sched) Gate(label string) {
 	if s == nil {
 		return
